@@ -14,7 +14,7 @@ for d in /verif/seeded/$GLOB/; do
   if ! git -C /repo apply --check $d/patch.diff 2>/dev/null; then echo "$n: PATCH DOES NOT APPLY"; miss=$((miss+1)); continue; fi
   git -C /repo apply $d/patch.diff
   OUT=$(VERIF_NO_EVIDENCE=1 ./check $id $TIER 2>&1); RC=$?
-  git -C /repo checkout -- .
+  git -C /repo apply -R $d/patch.diff 2>/dev/null || git -C /repo checkout -- .
   case $RC in
     1) echo "$n: caught";;
     0) echo "$n: MISSED"; miss=$((miss+1));;
